@@ -568,6 +568,19 @@ func (en *DefaultEngine) Flush(ctx context.Context, w io.Writer) (int, error) {
 	}
 	logg.TraceCtxf(ctx, "render with state", "state", en.st)
 	r, err := en.vm.Render(ctx)
+	if en.cfg.OutputSize > 0 && len(en.exit) > 0 {
+		sz := len(en.exit)
+		if err == nil {
+			sz += len(r)
+		}
+		if uint32(sz) > en.cfg.OutputSize {
+			if en.exiting {
+				en.reset(ctx)
+				en.exiting = false
+			}
+			return 0, fmt.Errorf("limit exceeded: output with exit value is %d bytes, limit %d", sz, en.cfg.OutputSize)
+		}
+	}
 	if err != nil {
 		if len(en.exit) == 0 {
 			return 0, err
